@@ -3,6 +3,7 @@
 package c15
 
 import (
+	"bufio"
 	"bytes"
 	"errors"
 	"fmt"
@@ -30,7 +31,22 @@ type ReadCase struct {
 	Limit uint64 `json:"limit"`
 	Steps []Step `json:"steps"`
 	Sizes []int  `json:"sizes"`
+	// Sized, when set, gives the underlying reader the Len() method of
+	// bytes.Buffer / bytes.Reader / strings.Reader, and AvailAtWrap is how many
+	// bytes the source holds when LimitReader is called; the rest is appended
+	// right afterwards (a buffer that is still being filled).  Len() is always
+	// truthful about what the source holds at that moment.
+	Sized       bool `json:"sized,omitempty"`
+	AvailAtWrap int  `json:"avail_at_wrap,omitempty"`
 }
+
+// sizedScripted is a scripted reader that also reports its unread length.
+type sizedScripted struct {
+	*scripted
+	avail *int
+}
+
+func (s sizedScripted) Len() int { return max(0, *s.avail-s.pos) }
 
 var errInjected = errors.New("injected")
 
@@ -42,10 +58,12 @@ type scripted struct {
 	steps []Step
 	i     int
 	asked []int
+	gave  []int // bytes delivered so far when the call of the same index was made
 }
 
 func (s *scripted) Read(p []byte) (int, error) {
 	s.asked = append(s.asked, len(p))
+	s.gave = append(s.gave, s.pos)
 	st := Step{N: len(p)}
 	scriptedStep := false
 	if s.i < len(s.steps) {
@@ -78,7 +96,15 @@ func (s *scripted) Read(p []byte) (int, error) {
 func checkRead(c ReadCase) error {
 	under := &scripted{n: c.Len, steps: c.Steps}
 	model := &scripted{n: c.Len, steps: c.Steps}
-	r := ioutil.LimitReader(under, c.Limit)
+	var r io.Reader
+	if c.Sized {
+		avail := min(c.AvailAtWrap, c.Len)
+		r = ioutil.LimitReader(sizedScripted{scripted: under, avail: &avail}, c.Limit)
+		avail = c.Len // the source grows after it has been wrapped
+		vp.Class("read:sized-source-that-grows-after-wrapping")
+	} else {
+		r = ioutil.LimitReader(under, c.Limit)
+	}
 	remaining := c.Limit
 	delivered := 0
 	straddle, faultBeforeLimit, afterLimit := false, false, 0
@@ -185,7 +211,12 @@ var readProp = vp.Register(vp.Prop[ReadCase]{
 		steps := rapid.SliceOfN(rapid.Custom(func(t *rapid.T) Step {
 			return Step{N: rapid.IntRange(0, 64).Draw(t, "n"), Err: rapid.SampledFrom([]int{0, 0, 0, 0, 0, 0, 0, 1, 1, 2, 2, 3}).Draw(t, "err")}
 		}), 0, 14).Draw(t, "steps")
-		return ReadCase{Len: l, Limit: limit, Steps: steps, Sizes: rapid.SliceOfN(rapid.IntRange(0, 64), 1, 20).Draw(t, "sizes")}
+		c := ReadCase{Len: l, Limit: limit, Steps: steps, Sizes: rapid.SliceOfN(rapid.IntRange(0, 64), 1, 20).Draw(t, "sizes")}
+		if rapid.IntRange(0, 3).Draw(t, "sized") == 0 {
+			c.Sized = true
+			c.AvailAtWrap = rapid.IntRange(0, l).Draw(t, "avail")
+		}
+		return c
 	},
 	Check: checkRead,
 })
@@ -196,11 +227,107 @@ type WStep struct {
 	N    int  `json:"n"` // bytes reported as written when failing (clamped)
 }
 
+// ReadAllCase reads a limited reader through the standard helpers, which pick
+// their own buffer sizes and look for optional interfaces (io.WriterTo).
+type ReadAllCase struct {
+	Len   int    `json:"len"`
+	Limit uint64 `json:"limit"`
+	Short []int  `json:"short"` // the underlying reader delivers at most this many bytes per call (cycled)
+	Via   int    `json:"via"`   // 0 io.ReadAll, 1 io.Copy into a bytes.Buffer, 2 io.CopyBuffer with a small buffer, 3 bufio.Reader
+}
+
+func checkReadAll(c ReadAllCase) error {
+	var steps []Step
+	for i := 0; i < 64 && len(c.Short) > 0; i++ {
+		steps = append(steps, Step{N: max(1, c.Short[i%len(c.Short)])})
+	}
+	under := &scripted{n: c.Len, steps: steps}
+	r := ioutil.LimitReader(under, c.Limit)
+	var got []byte
+	var err error
+	switch c.Via {
+	case 1:
+		var buf bytes.Buffer
+		_, err = io.Copy(&buf, r)
+		got = buf.Bytes()
+	case 2:
+		var buf bytes.Buffer
+		_, err = io.CopyBuffer(struct{ io.Writer }{&buf}, struct{ io.Reader }{r}, make([]byte, 7))
+		got = buf.Bytes()
+	case 3:
+		got, err = io.ReadAll(bufio.NewReaderSize(r, 16))
+	default:
+		got, err = io.ReadAll(r)
+	}
+	want := min(uint64(c.Len), c.Limit)
+	if uint64(len(got)) != want {
+		return fmt.Errorf("limit %d on a %d-byte stream read through helper %d: %d bytes delivered, want %d", c.Limit, c.Len, c.Via, len(got), want)
+	}
+	for i, b := range got {
+		if b != streamByte(i) {
+			return fmt.Errorf("delivered byte %d is %d, the stream has %d there", i, b, streamByte(i))
+		}
+	}
+	var le *ioutil.LimitError
+	if uint64(c.Len) >= c.Limit {
+		if !errors.As(err, &le) || le.Limit != c.Limit {
+			return fmt.Errorf("limit %d on a %d-byte stream read through helper %d: error is %v, want a *LimitError{%d}", c.Limit, c.Len, c.Via, err, c.Limit)
+		}
+	} else if err != nil {
+		return fmt.Errorf("limit %d on a %d-byte stream read through helper %d: error %v, want nil", c.Limit, c.Len, c.Via, err)
+	}
+	for i, a := range under.asked {
+		if uint64(a) > c.Limit-uint64(under.gave[i]) {
+			return fmt.Errorf("limit %d: after %d delivered bytes the underlying reader was given a %d-byte buffer", c.Limit, under.gave[i], a)
+		}
+	}
+	vp.Class("readall")
+	if uint64(c.Len) >= c.Limit {
+		vp.Class("readall:stream-reaches-the-limit")
+		vp.NonTrivialStr("c15.readall", fmt.Sprintf("%+v", c))
+		vp.Sample("readall", c)
+	}
+	return nil
+}
+
+var readAllProp = vp.Register(vp.Prop[ReadAllCase]{
+	Kind: "c15.readall", Base: 15000,
+	Gen: func(t *rapid.T) ReadAllCase {
+		l := rapid.IntRange(0, 3000).Draw(t, "len")
+		return ReadAllCase{
+			Len:   l,
+			Limit: rapid.SampledFrom([]uint64{0, 1, 511, 512, 513, uint64(max(l-1, 0)), uint64(l), uint64(l + 1), uint64(l / 2), 1 << 40, math.MaxUint64}).Draw(t, "limit"),
+			Short: rapid.SliceOfN(rapid.IntRange(1, 700), 0, 4).Draw(t, "short"),
+			Via:   rapid.IntRange(0, 3).Draw(t, "via"),
+		}
+	},
+	Check: checkReadAll,
+})
+
+func TestReadAll(t *testing.T) { vp.Run(t, readAllProp) }
+
 // WriteCase is a limit, write sizes and a writer script.
 type WriteCase struct {
 	Limit uint    `json:"limit"`
 	Sizes []int   `json:"sizes"`
 	Steps []WStep `json:"steps"`
+	// Via: how the caller writes: 0 Write, 1 io.WriteString, 2 io.Copy from a
+	// bytes.Reader, 3 fmt.Fprint (the standard helpers look for optional
+	// interfaces on the destination and would use any shortcut it offers).
+	Via int `json:"via,omitempty"`
+}
+
+// WriteString and ReadFrom give the underlying writer the optional interfaces
+// of real writers (files, buffers); whatever reaches it by any route counts.
+func (w *recWriter) WriteString(s string) (int, error) { return w.Write([]byte(s)) }
+
+func (w *recWriter) ReadFrom(r io.Reader) (int64, error) {
+	b, err := io.ReadAll(r)
+	n, werr := w.Write(b)
+	if err == nil {
+		err = werr
+	}
+	return int64(n), err
 }
 
 type recWriter struct {
@@ -241,7 +368,20 @@ func checkWrite(c WriteCase) error {
 		before := len(all)
 		all = append(all, b...)
 		callsBefore := w.calls
-		n, err := tw.Write(b)
+		var n int
+		var err error
+		switch c.Via {
+		case 1:
+			n, err = io.WriteString(tw, string(b))
+		case 2:
+			var n64 int64
+			n64, err = io.Copy(tw, bytes.NewReader(b))
+			n = int(n64)
+		case 3:
+			n, err = fmt.Fprint(tw, string(b))
+		default:
+			n, err = tw.Write(b)
+		}
 		if n != sz {
 			return fmt.Errorf("write %d: Write of %d bytes reported %d", i, sz, n)
 		}
@@ -305,7 +445,7 @@ var writeProp = vp.Register(vp.Prop[WriteCase]{
 		steps := rapid.SliceOfN(rapid.Custom(func(t *rapid.T) WStep {
 			return WStep{Fail: rapid.IntRange(0, 3).Draw(t, "fail") == 0, N: rapid.IntRange(0, 64).Draw(t, "n")}
 		}), 0, 14).Draw(t, "steps")
-		return WriteCase{Limit: limit, Sizes: sizes, Steps: steps}
+		return WriteCase{Limit: limit, Sizes: sizes, Steps: steps, Via: rapid.SampledFrom([]int{0, 0, 0, 1, 2, 3}).Draw(t, "via")}
 	},
 	Check: checkWrite,
 })
